@@ -40,8 +40,10 @@ func recorderTable(h H) *recorderTableResult {
 	rf := h.p.Func(hs, "(*ResponseRecorder).ReadFrom") // usually absent
 	replT := gs.Params[0].Type().(*types.Pointer).Elem()
 	for _, withStatus := range []bool{true, false} {
-		for _, offersReadFrom := range []bool{true, false} {
-			if !offersReadFrom && rf == nil {
+		for _, variant := range []int{0, 1, 2} {
+			// 0: the wrapped writer offers io.ReaderFrom; 1: it does not; 2: it does and its ReadFrom fails part-way
+			offersReadFrom, rfFails := variant != 1, variant == 2
+			if variant != 0 && rf == nil {
 				continue
 			}
 			res.n++
@@ -93,6 +95,11 @@ func recorderTable(h H) *recorderTableResult {
 					took += nb
 					return atuple{aint(nb), anil{}}, true
 				case callee == "invoke:ReadFrom":
+					if rfFails {
+						// four bytes went out, then the source (or the connection) failed
+						took += 4
+						return atuple{aint(4), aiface{aptr{&aobj{name: "copy error", typ: types.Typ[types.Int], f: map[string]aval{}}, ""}, types.Typ[types.Int]}}, true
+					}
 					took += 7
 					return atuple{aint(7), anil{}}, true
 				case callee == "io.Copy", callee == "io.CopyBuffer", callee == "io.CopyN":
@@ -153,7 +160,7 @@ func recorderTable(h H) *recorderTableResult {
 			if rf != nil && okRun {
 				src := aiface{aptr{&aobj{name: "source", typ: types.Typ[types.Int], f: map[string]aval{}}, ""}, types.Typ[types.Int]}
 				okRun = step("ReadFrom", func() (aval, string) { return env.run(rf, []aval{rec, src}) })
-				desc += fmt.Sprintf(", then ReadFrom (wrapped writer offers io.ReaderFrom=%v)", offersReadFrom)
+				desc += fmt.Sprintf(", then ReadFrom (wrapped writer offers io.ReaderFrom=%v, its ReadFrom fails after 4 bytes=%v)", offersReadFrom, rfFails)
 			}
 			if !okRun {
 				continue
